@@ -53,11 +53,15 @@ def cases(tier, seed):
     for lay in ([None, [2, 2]] if tier == "quick" else [None, [2, 2], [1, 3], [2, 1, 1]]):
         for op in F.OPS:
             for mk in ("none", "bool_sym"):
-                c = {"op": op, "dtype": "float64", "N": 4, "G": 2, "W": 2, "min_periods": None if op in ("rolling_shift", "rolling_diff") else 1,
-                     "mask": {"kind": mk}, "via": "GroupBy"}
-                if lay:
-                    c["lengths"] = lay
-                out.append(c)
+                for W, mp in ((2, 1), (3, None)):
+                    if op in ("rolling_shift", "rolling_diff"):
+                        mp = None
+                    elif lay and W == 3:
+                        continue
+                    c = {"op": op, "dtype": "float64", "N": 4, "G": 2, "W": W, "min_periods": mp, "mask": {"kind": mk}, "via": "GroupBy"}
+                    if lay:
+                        c["lengths"] = lay
+                    out.append(c)
     for c in out:
         c["name"] = F.case_name(c)
     return out
@@ -72,7 +76,7 @@ def replay(case, inputs, cand=None):
 
 
 def validate(E, seed, tier):
-    return F.validate_cases(E, cases("quick", seed), seed, 60 if tier == "quick" else 200)
+    return F.validate_cases(E, [c for c in cases("quick", seed) if not c.get("via")], seed, 60 if tier == "quick" else 200)
 
 
 META = {
